@@ -69,6 +69,7 @@ def SA.apply (a : SA) : SOp → SA × DRes
   | .front => (a, .ptr a.seq.head?)
   | .back => (a, .ptr a.seq.getLast?)
   | .next e => (a, .ptr (succOf e a.seq))
+  | .setValue e v => ({ a with val := fun n => if n = e then v else a.val n }, .unit)
 
 /-- Allowed calls: the node forms get an allocated node that is not in the list (fresh from
 `new`, or removed earlier); **indices are arbitrary integers**. -/
@@ -380,6 +381,10 @@ theorem sapply_refinesO {s : SSt} {a : SA} (h : SAbsO O s a) (op : SOp) (hok : o
       have := chainTo_head (chainTo_mid hc).2
       rw [this, e1, succOf_split e p q hp]
     · rw [h.clean e hm hok, succOf_not_mem e _ hm]
+  | setValue e v =>
+    refine ⟨{ s with val := s.val.set e v }, rfl, ⟨⟨h.inv.chain, h.inv.tail, h.inv.len, h.inv.nodup⟩,
+      h.alloc, h.clean, h.disj, h.oalloc, fun n => ?_, h.fresh⟩, fun _ _ => rfl, Nat.le_refl _⟩
+    simp only [SA.apply, IM.get_set, h.val n]
 
 end
 
